@@ -638,19 +638,24 @@ public:
   virtual void array_assign(const variable_t &lhs,
                             const variable_t &rhs) override {
 
+    // whatever was known about the contents of lhs is gone
+    bytes_t old_size = get_size(lhs);
+    if (old_size.is_constant()) {
+      m_base_dom -= mk_scalar_var(lhs, old_size.get_constant());
+    }
+    m_last_access_env -= lhs;
+
     bytes_t size = get_size(rhs);
     if (size.is_constant()) {
       set_size(lhs, size.get_constant());
       variable_t scalar_lhs(mk_scalar_var(lhs, size.get_constant()));
       variable_t scalar_rhs(mk_scalar_var(rhs, size.get_constant()));
-
-      auto ty = scalar_lhs.get_type();
-      if (ty.is_bool()) {
-        m_base_dom.assign_bool_var(scalar_lhs, scalar_rhs, false);
-      } else {
-        assert(ty.is_integer() || ty.is_real());
-        m_base_dom.assign(scalar_lhs, scalar_rhs);
-      }
+      // Both are summarized variables: each one stands for all the
+      // cells of its array. An assignment would make them equal (all
+      // the cells of lhs equal to "the" cell of rhs), so lhs gets an
+      // unrelated copy of the constraints of rhs.
+      m_base_dom -= scalar_lhs;
+      m_base_dom.expand(scalar_rhs, scalar_lhs);
     }
   }
 
